@@ -379,6 +379,17 @@ class PauliError(AdditionNoiseBase):
                 raise ValueError("Wrong description of a Pauli matrix.")
             state_rep.apply_circuit(gate_list)
 
+        elif isinstance(state_rep, MixedStabilizer):
+            # the same Pauli acts on every branch of the mixture
+            if pauli_error == "X":
+                state_rep.apply_sigmax(reg_list[0])
+            elif pauli_error == "Y":
+                state_rep.apply_sigmay(reg_list[0])
+            elif pauli_error == "Z":
+                state_rep.apply_sigmaz(reg_list[0])
+            elif pauli_error != "I":
+                raise ValueError("Wrong description of a Pauli matrix.")
+
         elif isinstance(state_rep, Graph):
             # TODO: Implement this for Graph backend
             raise NotImplementedError(
